@@ -8,9 +8,13 @@ CONF_P = {"conf_pack_outcome", "conf_out"}
 PROFILES = {
  "C06": dict(universes=["U_C06", "U_Long", "U_LongC06"], invs=["Inv_Machine", "Inv_C04_Exact", "Inv_C12_Shape"],
              owned=CONF_U | CONF_P, rand="data", c01=False, bonus=2,
-             nrand=(600, 6000)),
+             nrand=(600, 6000),
+             # third way of writing: every callable is an instance of a class with __call__ (no __code__ to look at)
+             gens=[rp.GEN_OFF, None, {"callables": "object", "generate_for_pack": False}]),
  "C08": dict(universes=["U_C08", "U_C01_Root"], invs=["Inv_Machine", "Inv_C04_Exact", "Inv_C12_Shape"],
-             owned=CONF_U | CONF_P, rand="control", c01=False, bonus=1, nrand=(600, 6000)),
+             owned=CONF_U | CONF_P, rand="control", c01=False, bonus=1, nrand=(600, 6000),
+             # (under the field loop every callable is written as a functools.partial with a bound keyword)
+             gens=[dict(rp.GEN_OFF, callables="partial"), None]),
  "C10": dict(universes=["U_C10", "U_LongC10"], invs=["Inv_Machine", "Inv_C10_Same", "Inv_C10_Least", "Inv_C01_Fill"],
              owned={"conf_evs", "conf_pevs", "conf_end", "conf_writes", "conf_out", "conf_outcome", "conf_pack_outcome",
                     "C10_Same", "C10_Least", "C01_Fill"},
@@ -46,7 +50,7 @@ def run(pid, tier, seed, gens=None):
     v = common.Verdict(pid, tier, seed)
     common.bind_repo()
     quick = tier == "quick"
-    gens = gens or [rp.GEN_OFF, None]
+    gens = gens or P.get("gens") or [rp.GEN_OFF, None]
     bonus = 0 if quick else P["bonus"]
     for u in (P.get("quick_universes") if quick and P.get("quick_universes") else P["universes"]):
         pp.exhaustive_part(v, u, P["invs"], gens, P["owned"], lenbonus=bonus, c01=P["c01"], nparts=8 if quick else 48)
